@@ -34,9 +34,9 @@ QNAME = {
 def describe(meta, fname, t):
     kind, i, j = t
     docs = meta["index"]["docs"]
-    if kind == 999 or i >= len(docs) or (kind not in (70, 170) and j >= len(docs[i]["cases"])):
+    if kind == 999 or i >= len(docs) or (kind != 70 and j >= len(docs[i]["cases"])):
         return {"key": "malformed|%s" % (t,), "what": "malformed case %s (context not found in the model's tree)" % (t,), "mkind": kind}
-    if kind in (70, 170):
+    if kind == 70:
         d = docs[i]
         hj, k = j // 100, j % 100
         hs = d.get("hist") or []
@@ -48,15 +48,11 @@ def describe(meta, fname, t):
         step = ("read #%d, step %d: %s" % (k, at, h["ops"][at])) if at is not None else "the list of reads (length)"
         before = "; ".join(h["ops"][:at]) if at is not None else "; ".join(h["ops"])
         tags = ["history"]
-        if kind == 170:
-            tags.append("attr-remove-style-stale")
         if h["impl"].startswith("worker"):
             tags.append("crash")
-        what = ("history on one element wrapper e = ELEMENT(PARSE(html), %r): %s disagrees with the model after the steps so far [%s]%s; "
+        what = ("history on one element wrapper e = ELEMENT(PARSE(html), %r): %s disagrees with the model after the steps so far [%s]; "
                 "reads returned %s ; html=%s ; program=%s"
-                % (h["css"], step, before,
-                   " but equals the mirror of RemoveAttribute keeping the parsed styles after ATTR_REMOVE(e, 'style')" if kind == 170 else "",
-                   h["impl"], d["html"], h["program"].replace("\n", " ")))
+                % (h["css"], step, before, h["impl"], d["html"], h["program"].replace("\n", " ")))
         return {"key": "%d|%s|%s|%s" % (kind, d["html"], h["css"], h["program"]), "what": what, "mkind": kind, "tags": tags,
                 "query": "history", "fql": h["program"], "impl": h["impl"], "html": d["html"], "css": h["css"],
                 "theorem": "C18: wrapper_caches_invisible / style_read_after_bulk_write (correspondence)"}
